@@ -71,6 +71,23 @@ def gen(rng, tier):
             mal = 'method'
         yield {'t1': _split(rng, f1), 't2': _split(rng, f2), 'method': method, 'mal': mal,
                'alpha': a1 + '/' + a2}
+    for _ in range(G.budget(30) if tier == 'quick' else 800):      # narrow integer types, many index-like states
+        k1, k2 = rng.choice([(11, 12), (12, 11), (12, 12), (12, 12), (10, 12)])
+        base = rng.choice([0, 1])
+        l1, l2 = list(range(base, base + k1)), list(range(base, base + k2))
+        N = rng.choice([300, 600, 1500])
+        f1 = G.traj(rng, l1, N, sticky=0.5) + l1
+        f2 = [l2[(l1.index(x) + (rng.random() < 0.3)) % k2] for x in f1[:N]] + l2[:k1] if k2 >= k1 else G.traj(rng, l2, N, sticky=0.5) + (l2 + l2)[:k1]
+        f2 = (f2 + l2)[:len(f1)]
+        yield {'t1': [f1], 't2': [f2], 'method': rng.choice(['symmetric', 'directed']), 'mal': None, 'alpha': 'index-narrow',
+               'dtypes': [rng.choice(['int8', 'uint8', 'int16']), rng.choice(['int8', 'int64'])]}
+    for _ in range(G.budget(20) if tier == 'quick' else 500):      # the SAME StateTraj objects compared repeatedly
+        k1, k2 = rng.randint(2, 5), rng.randint(2, 5)
+        l1, _ = G.alphabet(rng, k=k1)
+        l2, _ = G.alphabet(rng, k=k2)
+        N = rng.randint(10, 80)
+        f1, f2 = G.traj(rng, l1, N) + l1[:2], G.traj(rng, l2, N) + l2[:2]
+        yield {'t1': [f1], 't2': [f2], 'method': rng.choice(['symmetric', 'directed']), 'mal': None, 'alpha': 'objects', 'repeat': rng.randint(1, 3)}
     if tier == 'thorough':
         for N in range(2, 6):
             for f1 in itertools.product([0, 1, 2], repeat=N):
@@ -106,9 +123,19 @@ def shrink(case):
 def impl(case):
     import numpy as np
     import msmhelper as mh
-    t1 = [np.array(t) for t in case['t1']]
-    t2 = [np.array(t) for t in case['t2']]
-    v = mh.md.compare_discretization(t1, t2, method=case['method'])
+    from implutil import DTYPES
+    d1, d2 = (case.get('dtypes') or ['int64', 'int64'])
+    t1 = [np.array(t, dtype=DTYPES[d1]) for t in case['t1']]
+    t2 = [np.array(t, dtype=DTYPES[d2]) for t in case['t2']]
+    if case.get('repeat'):
+        # shared objects: earlier comparisons (also with swapped roles) must not change later ones
+        o1, o2 = mh.StateTraj(t1), mh.StateTraj(t2)
+        for k in range(case['repeat']):
+            mh.md.compare_discretization(o1, o2, method='directed' if k % 2 else 'symmetric')
+            mh.md.compare_discretization(o2, o1, method=case['method'])
+        v = mh.md.compare_discretization(o1, o2, method=case['method'])
+    else:
+        v = mh.md.compare_discretization(t1, t2, method=case['method'])
     return {'ok': float(v).hex()}
 
 
